@@ -54,7 +54,11 @@ def drive(tree, out_dir, flavour):
     out_dir.mkdir(parents=True, exist_ok=True)
     exe = out_dir / ("drive_" + flavour)
     san = ["-fsanitize=address,undefined", "-fsanitize-recover=address,undefined"] if flavour == "asan" else []
-    cc(["gcc", "-O1", "-g", "-DNDEBUG", "-I" + str(src)] + san +
+    omp = []
+    if flavour == "asan" and (src / "dd_dtw_openmp.c").exists():
+        # the OpenMP twins of the distance-matrix routines are exported C routines too
+        omp = ["-fopenmp", "-DVF_OMP", str(src / "dd_dtw_openmp.c")]
+    cc(["gcc", "-O1", "-g", "-DNDEBUG", "-I" + str(src)] + san + omp +
        [str(NATIVE / "drive.c"), str(src / "dd_dtw.c"), str(src / "dd_ed.c"), "-lm", "-o", str(exe)], out_dir)
     return exe
 
